@@ -20,6 +20,7 @@ mod c13;
 mod c17;
 mod c19;
 mod c15;
+mod c12;
 
 fn main() {
     let args: Vec<String> = std::env::args().collect();
@@ -53,6 +54,8 @@ fn main() {
         "C17" => c17::main(tier, seed, n),
         "C19" => c19::main(tier, seed, n),
         "C15" => c15::main(tier, seed, n),
+        "C12" => c12::main(tier, seed, n),
+        "C12stages" => c12::stages(tier, seed, n),
         p => { eprintln!("unknown property {}", p); std::process::exit(2); }
     }
 }
